@@ -52,4 +52,30 @@ theorem step_sem (c : Cfg) (hc : IsDev c) (t : Tbl) (v : Variant) (s : St) (hs :
   rw [← e4, ← h1, step_unfold]
   rcases hc with rfl | rfl <;> simp [absH, abs, core, pyarith]
 
+
+/-- A table lookup that succeeds names a table row. -/
+theorem lookup_mem {t : List (Int × Mn × Mode)} {op : Int} {mn : Mn} {mo : Mode}
+    (h : lookup t op = some (mn, mo)) : (op, mn, mo) ∈ t := by
+  induction t with
+  | nil => simp [lookup] at h
+  | cons e rest ih =>
+    obtain ⟨o, m1, m2⟩ := e
+    simp only [lookup] at h
+    split at h
+    · rename_i heq
+      simp only [Option.some.injEq, Prod.mk.injEq] at h
+      obtain ⟨rfl, rfl⟩ := h
+      subst heq
+      exact List.mem_cons_self
+    · exact List.mem_cons_of_mem _ (ih h)
+
+/-- `step()` for one table row, given the dispatch fact and the handler theorem. -/
+theorem step_case (c : Cfg) (hc : IsDev c) (t : Tbl) (v : Variant) (s : St) (hs : WF c s)
+    (hw : s.waiting = false) (op : Int) (mn : Mn) (mo : Mode) (h : St → St) (P : St → Prop)
+    (hop : s.mem s.pc = op) (hd : decode v op = some (mn, mo)) (hinst : t.instruct op = h)
+    (hh : HandlerOKp c v h mn mo P) (hP : P (afterFetch c t s)) :
+    abs (Mpu6502.step c t s) = Spec.step c.BYTE_WIDTH v (abs s) := by
+  subst hop
+  exact step_sem c hc t v s hs hw mn mo hd P hP (hinst ▸ hh)
+
 end Py65.Proofs
